@@ -70,17 +70,24 @@ def run_main(mod, argv, files=()):
     return "\n@@\n".join(res)
 
 
-def two_d(out, only=None):
+def two_d(out, only=None, reverse=False, part=None):
     from mc import enum2d
     from mc.ref import ref2d
     from rnapolis.common import BpSeq
 
     cases = []
-    for c in list(enum2d.M(6)) + list(enum2d.D(3)):
+    # D(2) with stem lengths up to 4: the same crossing pattern under many length vectors (another optimum each time)
+    for c in list(enum2d.M(6)) + list(enum2d.D(3)) + list(enum2d.D(2, lens=(1, 2, 3, 4), kmin=2, gapvals=(1,))):
         stems = ref2d.stems_of(c["pairs"])
         g = ref2d.stem_graph(stems)
         if any(g[v] for v in g):
             cases.append(c)
+    if reverse:
+        # the reversed battery run meets the structures in the opposite order: an answer must not depend on what was converted before
+        cases = cases[::-1]
+    if part:
+        # one slice of the list in a process of its own: every structure is met after another history of earlier conversions than in the full run
+        cases = cases[part[0] :: part[1]]
     for c in cases:
         key = "2d:%d:%s" % (c["n"], "-".join("%d.%d" % tuple(p) for p in c["pairs"]))
         if only and not key.startswith(only):
@@ -313,7 +320,12 @@ def main():
     if only in ("", "-"):
         only = None
     reverse = len(sys.argv) > 3 and sys.argv[3] == "reverse"
+    part = [int(x) for x in sys.argv[3][5:].split("/")] if len(sys.argv) > 3 and sys.argv[3].startswith("part:") else None
     out = {}
+    if part:
+        two_d(out, only, part=part)
+        json.dump(out, sys.stdout, sort_keys=True)
+        return
     tmp = tempfile.mkdtemp(prefix="verif-battery-")
     try:
         names = SMALL + (MORE if tier == "thorough" else []) + generated_inputs(tmp)
@@ -321,7 +333,7 @@ def main():
             # same inputs, processed in the opposite order: an output must not depend on what the interpreter processed before
             three_d(out, names[::-1], tmp, only)
             mapping_conflicts(out, tmp, only)
-            two_d(out, only)
+            two_d(out, only, reverse=True)
         else:
             two_d(out, only)
             mapping_conflicts(out, tmp, only)
